@@ -69,9 +69,15 @@ func (e *Engine) callFunction(fn *ssa.Function, args []Value, env []Value, defer
 		fr.env[fv] = env[i]
 	}
 	defer func() {
+		r := recover()
+		if _, aborted := r.(threadAbort); aborted {
+			panic(r) // the path is over; engine state belongs to another thread
+		}
 		e.depth--
-		e.curFn = e.curFn[:len(e.curFn)-1]
-		if r := recover(); r != nil {
+		if n := len(e.curFn); n > 0 {
+			e.curFn = e.curFn[:n-1]
+		}
+		if r != nil {
 			gp, ok := r.(*goPanic)
 			if !ok {
 				panic(r)
